@@ -89,6 +89,24 @@ def make_problem(rng, N=None, profile=None, n_offsets=None, poly_trend=None, kki
     return pb
 
 
+def adopt_library(pb, lib):
+    """Make `lib` (any JokerSamples with P, e, omega, M0, s) the problem's library: physical row record, tags,
+    reference ln_prior."""
+    import astropy.units as u
+    pb.lib = lib
+    pb.N = len(lib)
+    pb.lib_units = {"from": "prior.sample"}
+    pb.exact = False
+    pb.rows = dict(P=np.asarray(lib["P"].to_value(u.day), dtype=float), e=np.asarray(lib["e"], dtype=float),
+                   omega=np.asarray(lib["omega"].to_value(u.rad), dtype=float),
+                   M0=np.asarray(lib["M0"].to_value(u.rad), dtype=float),
+                   s_kms=np.asarray(lib["s"].to_value(u.km / u.s), dtype=float))
+    pb.s_seen = lib["s"].to_value(gen.U(pb.du))
+    pb.tagP = pb.rows["P"].copy()
+    pb.ln_prior_ref = np.asarray(lib["ln_prior"], dtype=float) if "ln_prior" in lib.par_names else None
+    pb.planted = None
+
+
 def tags_of(pb, P_day):
     """Library row numbers of periods (bitwise when the library is in internal units, nearest otherwise).
     Returns (tags, ok) with ok[i] False when P_day[i] is no library row's period."""
@@ -390,7 +408,8 @@ def check_logprob_columns(pb, opts, out, row_tags, ll_lib):
     if len(lp) != len(row_tags) or len(lk) != len(row_tags):
         bad.append(("logprob-length", "log-prob columns have %d/%d entries for %d rows" % (len(lp), len(lk), len(row_tags))))
         return bad
-    want_lp = -(row_tags + 0.5)
+    ref = getattr(pb, "ln_prior_ref", None)
+    want_lp = -(row_tags + 0.5) if ref is None else ref[row_tags]
     if not np.array_equal(lp, want_lp):
         k = int(np.argmax(lp != want_lp))
         bad.append(("ln_prior-misattributed", "row %d is library row %d (ln_prior %.1f) but carries ln_prior %r"
@@ -417,6 +436,15 @@ def one_session(ctx, i, rng, return_logprobs=False, force=None, problem_kw=None,
     N = pb.N
     in_memory = bool(rng.random() < 0.45)
     as_file = (not in_memory) and bool(rng.random() < 0.5)
+    seed = int(rng.integers(0, 2 ** 31))
+    as_int = False
+    if rng.random() < 0.12 and inject in (None, "none"):
+        # prior samples requested by COUNT: the sampler draws its own library from its generator. The same library
+        # is reproduced here from an identically seeded generator, so every monitor applies to this entry point too.
+        as_int, as_file = True, False
+        N = int(rng.choice([20, 100, 400]))
+        adopt_library(pb, pb.prior.sample(size=N, return_logprobs=bool(return_logprobs),
+                                          rng=np.random.Generator(np.random.PCG64(seed))))
     opts = dict(in_memory=in_memory, n_linear_samples=int(rng.choice([1, 1, 3])))
     trunc = str(rng.choice(["none", "one", "k", "more"], p=[.4, .15, .3, .15]))
     if in_memory and rng.random() < 0.3:
@@ -433,6 +461,8 @@ def one_session(ctx, i, rng, return_logprobs=False, force=None, problem_kw=None,
     inj_kind = str(rng.choice(["none", "none", "neg-inf", "flat", "ties"]))
     if inject is not None:
         inj_kind = inject
+    if as_int:
+        inj_kind = "none"
     if N == 1 and inj_kind == "neg-inf":
         inj_kind = "none"
     inj = make_injection(rng, pb, inj_kind)
@@ -451,14 +481,14 @@ def one_session(ctx, i, rng, return_logprobs=False, force=None, problem_kw=None,
         opts["return_logprobs"] = True
     if force:
         opts.update(force)
-    seed = int(rng.integers(0, 2 ** 31))
     desc = dict(index=i, N=N, profile=pb.profile, injected=inj_kind, opts=dict(opts), as_file=as_file, seed=seed,
+                library_by_count=as_int,
                 n_epochs=len(pb.lin.t), poly_trend=pb.ps["poly_trend"], n_offsets=pb.ps["n_offsets"],
                 lib_units=pb.lib_units)
     recgen.reset()
     g = recgen.make(seed)
     joker = TheJoker(pb.prior, rng=g, tempfile_path=ctx.tmpdir)
-    lib_arg = lib_file(pb, ctx.tmpdir, "lib%d.hdf5" % i) if as_file else pb.lib
+    lib_arg = lib_file(pb, ctx.tmpdir, "lib%d.hdf5" % i) if as_file else (N if as_int else pb.lib)
     Inject.active = inj
     try:
         out, lls = joker.rejection_sample(pb.data, lib_arg, return_all_logprobs=True, **opts)
